@@ -3,6 +3,7 @@ import FsDb.Model.Codec
 import FsDb.Model.Config
 import FsDb.Model.Sys
 import FsDb.Spec.Iso
+import FsDb.Model.Wire
 /-!
   Line-protocol driver: one operation per line on stdin, one answer per line on stdout.
   Imports model/spec modules only (core Lean) so that it links as an executable.
@@ -202,6 +203,33 @@ def stepMdb (st : St) (args : List String) : St × String :=
           (mdbSet { st with gcounter := m1.counter } d (m1, sp1, true), showOut mo ++ "\t" ++ showOut so)
   | _ => (st, "bad-op\tbad-op")
 
+def sentinelName : Wire.Sentinel → String
+  | .unknown => "unknown" | .noFreeSpace => "noFreeSpace" | .notFound => "notFound" | .emptyKey => "emptyKey"
+  | .headerNotFound => "headerNotFound" | .txNotFound => "txNotFound" | .txAlreadyExists => "txAlreadyExists"
+  | .txSerialization => "txSerialization"
+
+def allSentinels : List Wire.Sentinel :=
+  [.unknown, .noFreeSpace, .notFound, .emptyKey, .headerNotFound, .txNotFound, .txAlreadyExists, .txSerialization]
+
+/-- C11 (a): `errmap <bitmask of sentinels>` → class seen by the gRPC caller; `errcode <grpc code>` -/
+def stepErr (args : List String) : String :=
+  match args with
+  | ["errmap", m] =>
+    match m.toNat? with
+    | some mask =>
+      let set := (allSentinels.zipIdx.filter (fun (_, i) => (mask >>> i) % 2 == 1)).map (·.1)
+      sentinelName (Wire.roundTrip set) ++ "/1"
+    | none => "bad-op"
+  | ["errcode", c] =>
+    match c.toNat? with
+    | some code =>
+      let cd : Wire.Code := match code with
+        | 3 => .invalidArgument | 5 => .notFound | 6 => .alreadyExists | 8 => .resourceExhausted
+        | 9 => .failedPrecondition | 10 => .aborted | 13 => .internal | _ => .other
+      sentinelName (Wire.clientFromCode cd) ++ "/1"
+    | none => "bad-op"
+  | _ => "bad-op"
+
 def stepCodec2 (a b : String) : String :=
   let ra := stepCodec ["dec", a]
   let rb := stepCodec ["dec", b]
@@ -213,6 +241,8 @@ def step (st : St) (line : String) : St × String :=
   | "enc" :: args => (st, stepCodec ("enc" :: args))
   | "dec" :: args => (st, stepCodec ("dec" :: args))
   | ["dec2", a, b] => (st, stepCodec2 a b)
+  | "errmap" :: args => (st, stepErr ("errmap" :: args))
+  | "errcode" :: args => (st, stepErr ("errcode" :: args))
   | "cfg" :: args => (st, stepCfg args)
   | "sys" :: args => stepSys st args
   | "mdb" :: args => stepMdb st args
